@@ -101,7 +101,7 @@ Definition brt_name (st : wb_state) (payload : list N) : outcome wb_state :=
   if N.of_nat (length payload) <? N.of_nat (13 + str_len) + rgce_len then Err E_LEN else
   do rgce <- sliceN payload (13 + str_len) rgce_len;
   do formula <- xlsb_parse_formula show_f64
-                  {| be_sheets := ws_ext st; be_names := map fst (ws_names st) |} rgce;
+                  {| be_sheets := ws_ext st; be_names := map fst (ws_names st); be_base := None |} rgce;
   Ok {| ws_ext := ws_ext st; ws_names := ws_names st ++ [(name, formula)] |}.
 
 Definition brt_extern_sheet (st : wb_state) (payload : list N) : outcome wb_state :=
@@ -150,7 +150,7 @@ Fixpoint spec_names_xlsb (ext : list (list N)) (acc : list (list N * list N)) (d
   match ds with
   | [] => Ok acc
   | d :: t =>
-      do f <- xlsb_parse_formula show_f64 {| be_sheets := ext; be_names := map fst acc |} (nr_rgce d);
+      do f <- xlsb_parse_formula show_f64 {| be_sheets := ext; be_names := map fst acc; be_base := None |} (nr_rgce d);
       spec_names_xlsb ext (acc ++ [(nr_name d, f)]) t
   end.
 
